@@ -1438,9 +1438,23 @@ fn run_alpide(ex: &mut Executor, runs: &[AlpideRun], flags: &[u64], label: &str)
             out.fail = Some(f);
             return out;
         }
-        let errs = oracle::error_msgs(&r.stderr);
+        let muted = run.spec.argv.iter().any(|a| a == "-m");
+        let errs = if muted {
+            // nothing is displayed: the messages are the `reported_errors` of the statistics file
+            r.stats_file
+                .as_ref()
+                .and_then(|b| oracle::parse_stats(b, &run.spec.stats_ext))
+                .and_then(|st| st.get("error_stats").and_then(|e| e.get("reported_errors")).and_then(|v| v.as_array().cloned()))
+                .unwrap_or_default()
+                .iter()
+                .filter_map(|x| x.as_str())
+                .map(|t| oracle::parse_err_text(&oracle::strip_ansi(t)))
+                .collect()
+        } else {
+            oracle::error_msgs(&r.stderr)
+        };
         let cmd = run.spec.cmdline();
-        let variant = if i == 0 { "" } else { " (other pixel-hit content)" };
+        let variant = if i == 0 { "" } else if muted { " (other pixel-hit content, muted)" } else { " (other pixel-hit content)" };
         let starts: Vec<u64> = run.frames.iter().map(|f| f.offset).collect();
         for (k, fe) in run.frames.iter().enumerate() {
             if fe.dont_care {
@@ -1486,7 +1500,9 @@ fn run_alpide(ex: &mut Executor, runs: &[AlpideRun], flags: &[u64], label: &str)
                 ));
                 return out;
             }
-            if let Some(m) = here.iter().find(|m| Some(&m.codes[0]) == fe.lane_err_code.as_ref()) {
+            // (muted runs drop the per-lane context - and with it the sub-codes - from the stored message:
+            // known finding of C16, `mute-changes-statistics-file:alpide-lane-context`; not judged here)
+            if let Some(m) = here.iter().find(|m| Some(&m.codes[0]) == fe.lane_err_code.as_ref()).filter(|_| !muted) {
                 for sc in &fe.sub_codes {
                     if !m.text.contains(&format!("[{sc}]")) {
                         out.fail = Some(Fail::new(
